@@ -5,6 +5,7 @@ package c33
 import (
 	"fmt"
 	"math/rand"
+	"os"
 	"strconv"
 	"strings"
 	"testing"
@@ -133,11 +134,22 @@ func fingerprint(tw twin, a Built) string {
 // arguments in call order, integers base 10, floats shortest round trip ('f'), durations / times in
 // the unit the option names.
 func TestC33Argv(t *testing.T) {
-	run := mon.Start(t, "C33", "exploration",
-		"twin build over the reflected builder graph: (1) every (type, method) edge on a shortest path root->edge->nearest terminal, each terminal of the final type, on a non-cluster and on a cluster builder (hash-tagged strings); "+
-			"(2) random walks of <=40 calls from random roots. Every path is built twice with disjoint recognisable values (strings a<n>/b<n>, ints incl. >2^53 and int64 extremes, floats incl. 1e21/5e-324, whole-unit durations/times). "+
-			"A case is distinct by (path, terminal, builder kind, kinds of passed values) and non-trivial when at least one caller value is passed")
+	if os.Getenv("VERIF_C33_ARGV_ONLY") == "" {
+		t.Skip("run through TestC33 (set VERIF_C33_ARGV_ONLY=1 to run the argv half alone)")
+	}
+	run := mon.Start(t, "C33", "exploration", c33Rule)
 	defer run.Finish()
+	argvHalf(t, run)
+}
+
+const c33Rule = "(A) twin build over the reflected builder graph: (1) every (type, method) edge on a shortest path root->edge->nearest terminal, each terminal of the final type, on a non-cluster and on a cluster builder (hash-tagged strings); " +
+	"(2) random walks of <=40 calls from random roots. Every path is built twice with disjoint recognisable values (strings a<n>/b<n>, ints incl. >2^53 and int64 extremes, floats incl. 1e21/5e-324, whole-unit durations/times). " +
+	"A case is distinct by (path, terminal, builder kind, kinds of passed values) and non-trivial when at least one caller value is passed; " +
+	"(B) wire integrity under the C01 stress workload with the race detector: every VERIF.* frame the server receives must be exactly the argv that was issued for its uid (count, key, shape), " +
+	"while 15-30% of callers abandon their calls at random instants and successful commands are recycled into the command pool"
+
+// argvHalf is the builder half of C33.
+func argvHalf(t *testing.T, run *mon.Run) {
 	run.Assume("reflection sees the whole builder API (exported methods only)",
 		"time unit table keyed by method name: Ex=s, Px=ms, Exat=unix s, Pxat=unix ms (Redis SET/GETEX/MSETEX docs); other time-typed methods are counted unclassified (text not judged, presence still judged)",
 		"float32 parameters: both strconv.FormatFloat(float64(v),'f',-1,64) (what the builders emit: exact widened value) and the bitSize-32 shortest form are accepted",
@@ -224,7 +236,7 @@ func TestC33Argv(t *testing.T) {
 
 	// (2) random walks
 	rng := run.Rand("walks")
-	walks := run.N(250000, 8000000)
+	walks := run.N(250000, 5000000)
 	maxLen := 0
 	for i := 0; i < walks; i++ {
 		limit := 1 + rng.Intn(40)
